@@ -131,7 +131,20 @@ func main() {
 			r.Count("packages", len(p.Pkgs))
 			r.Count("functions", len(p.Funcs))
 			for _, rule := range spec.Rules {
-				rule(p, r)
+				// a rule that loses its anchor (function renamed, shape not recognised) or crashes is UNDECIDED on its
+				// own; the other rules of the property still run and report
+				func() {
+					defer func() {
+						if e := recover(); e != nil {
+							if u, ok := e.(UndecidedError); ok {
+								r.Undecided("analyser", u.Msg, "", "the rule could not be evaluated")
+							} else {
+								r.Undecided("analyser", fmt.Sprintf("rule panic: %v", e), "", string(debug.Stack()))
+							}
+						}
+					}()
+					rule(p, r)
+				}()
 			}
 			results = append(results, r)
 			cfgNames = append(cfgNames, cfg.String())
